@@ -12,6 +12,7 @@
   state the textbook forms with the real `(n:ℝ) - 1`.
 -/
 import QExPy.Lemmas.Stats
+import QExPy.Model.Downstream
 
 namespace QExPy
 open Stats
@@ -427,5 +428,37 @@ example : lastErrSel [.useStd, .useWmean, .usePerr, .useWmean] = some .usePerr
     ∧ lastValSel [.useStd, .useWmean, .usePerr, .useWmean] = true
     ∧ lastErrSel [.useWmean] = none := by
   refine ⟨rfl, rfl, rfl⟩
+
+/-! ### 11. the selected numbers are the ones used downstream -/
+
+/-- **C10 (used downstream).** A later calculation `k·a + c`, propagated by the derivative method
+    through the generated operator and derivative tables, reads exactly the value and the
+    uncertainty currently in use: the result is `k·value + c ± |k|·|uncertainty|`. -/
+theorem C10_used_downstream (k c v e : ℝ) :
+    downstream k c v e = (k * v + c, |k| * |e|) := by
+  unfold downstream Expr.propagate
+  have hs : Expr.sources (Expr.bin Op2.add (Expr.bin Op2.mul (Expr.const k) (Expr.var 0))
+      (Expr.const c) : Expr ℝ) = [0] := by
+    simp only [Expr.sources, List.nil_append, List.append_nil]
+    rfl
+  rw [hs]
+  simp only [Expr.eval, Expr.resultSums, Expr.quadTerms, Expr.pairTerms, Expr.diff, Gen.op2, Gen.d2,
+    List.map_cons, List.map_nil, List.append_nil]
+  simp [Num.sum]
+  rw [Real.sqrt_sq_eq_abs, abs_mul, mul_comm]
+
+/-- **C10 (selectors, downstream).** After any selector history (all individual uncertainties
+    non-zero) a later calculation `k·a + c` uses the statistic of the last value-selector and the
+    statistic of the last uncertainty-selector. -/
+theorem C10_selected_used_downstream (xs es : List ℝ) (hz : hasZero es = false) (ss : List Sel)
+    (k c : ℝ) :
+    downstream k c ((Rep.init xs es).run ss).value ((Rep.init xs es).run ss).error =
+      (k * (if Sel.useWmean ∈ ss then wmean xs es else mean xs) + c,
+       |k| * abs (match lastErrSel ss with
+        | none | some .useSem => sem xs
+        | some .useStd => std1 xs
+        | some .usePerr => perr es
+        | some .useWmean => sem xs)) := by
+  rw [C10_used_downstream, (C10_selectors xs es hz ss).1, (C10_selectors xs es hz ss).2]
 
 end QExPy
